@@ -86,16 +86,34 @@ fn scen(_spec: RunSpec) -> ScenFut {
             meta.register_chunk(&path, &ChunkMetadata { path: path.clone(), min_timestamp: mn, max_timestamp: mx, row_count: rows.len() as u64, size_bytes: bytes.len() as u64 }).await.unwrap();
             historical.extend(rows);
         }
+        let mut icfg = IngesterConfig::default();
+        icfg.wal.enabled = false;
+        icfg.flush_row_count = [1usize, 3, 100][sim::w(3) as usize];
+        let ing = Ingester::new(icfg, store.clone(), meta.clone(), StorageConfig::default(), MetricSchema::default_metrics());
+        // in half of the runs the same ingester has already written to this shard just before the split starts
+        // (whatever it remembers about the shard from then must not outlive the start of the split)
+        let mut pre_rows: Vec<Row> = Vec::new();
+        if sim::w_bool(50) {
+            for _ in 0..sim::w_range(1, 2) {
+                let ts = split_ts + (sim::w(200) as i64 - 100) * SEC;
+                let r = Row { id: next_id, ts, metric: metric.to_string(), host: None, vi: Some(sim::w(5) as i64), vf: None, vu: None };
+                next_id += 1;
+                match ing.write(batch(1, std::slice::from_ref(&r))).await {
+                    Ok(()) => pre_rows.push(r),
+                    Err(e) => {
+                        sim::with(|st| st.abort = Some(format!("pre-split write: {e}")));
+                        return;
+                    }
+                }
+            }
+            sim::probe("ingester-wrote-to-the-shard-just-before-the-split");
+        }
         if let Err(e) = meta.start_split(&shard, vec![na.clone(), nb.clone()], split_ts.to_be_bytes().to_vec()).await {
             sim::with(|st| st.abort = Some(format!("start_split: {e}")));
             return;
         }
         let phase = if sim::w_bool(50) { SplitPhase::DualWrite } else { SplitPhase::Backfill };
         meta.update_split_progress(&shard, 0.0, phase).await.expect("phase");
-        let mut icfg = IngesterConfig::default();
-        icfg.wal.enabled = false;
-        icfg.flush_row_count = [1usize, 3, 100][sim::w(3) as usize];
-        let ing = Ingester::new(icfg, store.clone(), meta.clone(), StorageConfig::default(), MetricSchema::default_metrics());
         // the real back-fill (in the Backfill phase, when there is history): before, in the middle of, or after the writes;
         // a third of these runs interrupt it once with a storage error, so the reads see a partial back-fill
         let backfill_at: Option<u32> = if phase == SplitPhase::Backfill && n_hist > 0 { Some(sim::w(3)) } else { None };
@@ -206,7 +224,7 @@ fn scen(_spec: RunSpec) -> ScenFut {
         }
         let want_a: BTreeMap<i64, u32> = accepted.iter().filter(|r| r.ts < split_ts).map(|r| (r.id, 1)).collect();
         let want_b: BTreeMap<i64, u32> = accepted.iter().filter(|r| r.ts >= split_ts).map(|r| (r.id, 1)).collect();
-        let want_old: BTreeMap<i64, u32> = accepted.iter().chain(historical.iter()).map(|r| (r.id, 1)).collect();
+        let want_old: BTreeMap<i64, u32> = accepted.iter().chain(historical.iter()).chain(pre_rows.iter()).map(|r| (r.id, 1)).collect();
         // back-fill copies: never a row of the wrong side, never a row twice, never a row that is not historical
         // (completeness of the back-fill is C14's subject; here it may have been interrupted)
         for (side, got, lower) in [("A", &bf_a, true), ("B", &bf_b, false)] {
@@ -240,7 +258,7 @@ fn scen(_spec: RunSpec) -> ScenFut {
                 return;
             }
         };
-        let everything: Vec<Row> = historical.iter().chain(accepted.iter()).cloned().collect();
+        let everything: Vec<Row> = historical.iter().chain(pre_rows.iter()).chain(accepted.iter()).cloned().collect();
         let all = batch(1, &everything);
         let lo = split_ts - 400 * SEC;
         let hi = split_ts + 400 * SEC;
